@@ -70,6 +70,10 @@ def gen_block(rng: random.Random, depth: int, scopes: list[str], budget: list[in
             # a real blocking operation of the asyncio back-end: WriteFlowControl.drain() on a paused transport whose
             # resume_writing() notification is scripted d seconds later (d on the same grid as the deadlines)
             out.append(["drain", rng.choice([0.5, 0.5, 1.0, 1.5, 2.0, 3.0])])
+        elif r < 0.36:
+            # a blocking operation of the library above the back-end: aclose() of the client object a TCP server hands to its
+            # request handlers, over a transport whose own close takes d seconds
+            out.append(["libclose", rng.choice([0.5, 1.0, 1.5, 2.0])])
         elif r < 0.38:
             out.append(["yield"])
         elif r < 0.42:
@@ -119,6 +123,9 @@ class Trace:
         return kw["i"]
 
 
+_SOCKS = None
+
+
 class Runner:
     def __init__(self, loop, backend, trace: Trace) -> None:
         self.loop, self.backend, self.tr = loop, backend, trace
@@ -139,17 +146,43 @@ class Runner:
         finally:
             h.cancel()
 
+    async def _libclose(self, d: float) -> None:
+        import socket as _socket
+
+        from easynetwork.lowlevel.api_async.servers.stream import ConnectedStreamClient
+        from easynetwork.lowlevel._stream import StreamDataProducer
+        from easynetwork.lowlevel.socket import new_socket_address
+        from easynetwork.protocol import StreamProtocol
+        from easynetwork.serializers import StringLineSerializer
+        from easynetwork.servers.async_tcp import _ConnectedClientAPI
+
+        from vlib import memtransport
+
+        global _SOCKS
+        if _SOCKS is None:
+            from vlib import netutil
+
+            _SOCKS = netutil.tcp_pair(nodelay=False)  # only the attributes are read; one pair per worker process
+        m = memtransport.MemStreamTransport(self.backend)
+        m.use_socket_extras(_SOCKS[0])
+        m.aclose_script = [("sleep", d)]
+        low = ConnectedStreamClient(_transport=m, _producer=StreamDataProducer(StreamProtocol(StringLineSerializer())))
+        api = _ConnectedClientAPI(new_socket_address(_SOCKS[0].getpeername(), _socket.AF_INET), low)
+        await api.aclose()
+
     async def block(self, body: list, path: str, enclosing: tuple, shielded: bool, task_tag: str) -> None:
         for idx, st in enumerate(body):
             sid = f"{path}.{idx}"
             op = st[0]
-            if op in ("sleep", "yield", "shyield", "drain"):
-                self.tr.add("start", id=sid, op=op, d=st[1] if op in ("sleep", "drain") else 0, enc=enclosing, sh=shielded or op == "shyield", task=task_tag)
+            if op in ("sleep", "yield", "shyield", "drain", "libclose"):
+                self.tr.add("start", id=sid, op=op, d=st[1] if op in ("sleep", "drain", "libclose") else 0, enc=enclosing, sh=shielded or op == "shyield", task=task_tag)
                 try:
                     if op == "sleep":
                         await self.backend.sleep(st[1])
                     elif op == "drain":
                         await self._drain(st[1])
+                    elif op == "libclose":
+                        await self._libclose(st[1])
                     elif op == "yield":
                         await self.backend.coro_yield()
                     else:
@@ -373,7 +406,7 @@ def check(prog: list, ext: float | None, res: dict, ctx=None) -> list[tuple[str,
         # called on an enclosing scope: asyncio throws CancelledError into that step whatever the state of the awaited future
         # (cancel_called() ground truth at the end event; a cancel issued by this very task is delivered at the next statement)
         late = [n for n in s["enc"] if n in e["cc"] and n not in s["cc"] and scope_info.get(n) is not None]
-        if late and s["op"] in ("sleep", "drain") and s["d"] > 0:
+        if late and s["op"] in ("sleep", "drain", "libclose") and s["d"] > 0:
             cnt("i1s_strict_checks")
             out.append(("I1s-completed-in-a-step-after-cancel", f"statement {sid} ({s['op']} {s['d']}) ended normally at t={e['t']} although scope {late[0]} had been cancelled while it was waiting (the operation swallowed the cancellation)"))
         # I1: ended normally although an enclosing scope was cancelled before it started / well before it ended
